@@ -55,6 +55,21 @@ def _files():
     # chunk starts that are not multiples of the chunk length (3, then 2+2), so "same chunk" cannot be decided by division
     fs['unaligned'] = [G.seg([(A, ['FULL', i32, 3]), (B, ['FULL', i16, 2])], chunks=1),
                        G.seg([(A, ['FULL', i32, 2]), (B, ['FULL', i16, 3])], chunks=2)]
+    # scalings whose evaluation has internal structure: NIST thermocouple sub-ranges differ from chunk to chunk (equal chunk
+    # lengths), in both directions; and a chain Linear -> RTD / Add(Linear, RTD) over a chunk holding a NaN, for which the RTD
+    # solver raises - reads after the failed one must not be affected by it
+    nan = float('nan')
+    f64 = 'DoubleFloat'
+    ta = [F._uprop('NI_Number_Of_Scales', 1)] + F.thermocouple_props(0, 10073, 0)
+    tb = [F._uprop('NI_Number_Of_Scales', 1)] + F.thermocouple_props(0, 10073, 1)
+    fs['thermo'] = [G.seg([(A, ['FULL', f64, 2, F.f64hex([-3000.0, -1000.0, 5000.0, 10000.0, 30000.0, 40000.0])], ta),
+                           (B, ['FULL', f64, 2, F.f64hex([-100.0, -50.0, 100.0, 500.0])], tb)], chunks=3),
+                    G.seg([(A, ['FULL', f64, 2, F.f64hex([21000.0, -5000.0])]), (B, ['FULL', f64, 2, F.f64hex([1000.0, -200.0])])], chunks=1)]
+    ra = [F._uprop('NI_Number_Of_Scales', 2)] + F.linear_props(0, 1.0, 0.0) + F.rtd_props(1, 0)
+    rb = [F._uprop('NI_Number_Of_Scales', 3)] + F.linear_props(0, 2.0, 1.0) + F.rtd_props(1) + F.add_props(2, 0, 1)
+    vals = [0.11, 0.12, nan, 0.13, 0.09, 0.14]
+    fs['rtd-nan'] = [G.seg([(A, ['FULL', f64, 2, F.f64hex(vals)], ra), (B, ['FULL', f64, 2, F.f64hex(vals[::-1])], rb)], chunks=3),
+                     G.seg([(A, ['FULL', f64, 2, F.f64hex([0.15, 0.08])]), (B, ['FULL', f64, 2, F.f64hex([0.1, 0.2])])], chunks=1)]
     return fs
 
 
